@@ -170,6 +170,8 @@ def focus_traces(events):
                     continue
             else:
                 ev.update({kk: proj[kk] for kk in ('pool', 'nav', 'attr', 'schema')})
+                if 'peek' in proj:
+                    ev['peek'] = proj['peek']
                 if undecl:
                     ev['undecl'] = undecl
                 ev['oerr'] = proj.get('oerr', '')
@@ -228,7 +230,8 @@ def check(tier, replay_path=None):
                         n[r['c']] = n.get(r['c'], 0) + 1
             extra = sum(1 for a in run['acts'] if a[0] == 'Mutate' and a[2][0] == 'New')
             maxi = max([maxi] + [v + extra for v in n.values()] + [extra])
-        mod, consts = metacheck.trace_files(schema, maxi)
+        # (generator kind uuid: ids only have to be fresh; a third of the builds use the generator the loader provides)
+        mod, consts = metacheck.trace_files(schema, maxi, 'uuid')
         verdicts, st = trace.validate('MC_MetaTrace', consts, traces,
                                       modules=['Meta', 'MetaObs', 'MetaTrace', 'TraceBase'],
                                       extra={'MC_MetaTrace.tla': mod})
